@@ -74,6 +74,7 @@ func verifTermState(t *Terminal, m map[string]interface{}) {
 	m["yanked"] = string(t.yanked)
 	m["cy"] = t.cy
 	m["offset"] = t.offset
+	m["xoffset"] = t.xoffset
 	m["multi"] = t.multi
 	sel := []int32{}
 	for _, s := range t.sortSelected() {
